@@ -109,7 +109,7 @@ func scenarioC06(r *Run) {
 	var waiter []*member
 	w.start()
 	ok := w.drive(func() {
-		if why := w.progress(); why != "" {
+		if why := w.progressOf(true); why != "" {
 			r.Fail("not-work-conserving", "at a quiescent point: %s", why)
 			return
 		}
@@ -157,8 +157,18 @@ func scenarioC06(r *Run) {
 // notification unfinished, not entered, not yet cancelled.
 func (w *srvWorld) provenWaiter() *member {
 	w.noteArrivals()
+	// a message is provably dispatched when a member of it, or of a later
+	// message, has started (dispatch is in arrival order)
+	lastStarted := -1
 	for _, msg := range w.msgs {
-		if msg.Arrive < 0 {
+		for _, m := range msg.Members {
+			if m.Enter >= 0 || m.Logged >= 0 {
+				lastStarted = msg.Idx
+			}
+		}
+	}
+	for _, msg := range w.msgs {
+		if msg.Arrive < 0 || msg.Idx > lastStarted {
 			return nil
 		}
 		for _, m := range msg.Members {
